@@ -209,6 +209,27 @@ func main() {
 			fmt.Println("simgen: WARNING retake anchor not found")
 		}
 	}
+	if *pinSeed {
+		// crypto/tls of the toolchain the simulator needs (go1.26) re-validates a
+		// resumed session's chain against the current RootCAs; the toolchains the
+		// repository is built with by default (go1.22 / go1.23) do not.  An
+		// undocumented GODEBUG setting, switched on per run, restores the older
+		// library's behaviour so that what a shared session cache lets through
+		// there is visible here.
+		cp := filepath.Join(runtime.GOROOT(), "src/crypto/tls/common.go")
+		b, err := os.ReadFile(cp)
+		must(err)
+		const anchor = "func anyValidVerifiedChain(verifiedChains [][]*x509.Certificate, opts x509.VerifyOptions) bool {\n"
+		if strings.Count(string(b), anchor) == 1 && strings.Contains(string(b), "\"internal/godebug\"") {
+			nb := strings.Replace(string(b), anchor, anchor+"\tif verifsimOldResume.Value() == \"1\" {\n\t\treturn len(verifiedChains) > 0\n\t}\n", 1) + "\nvar verifsimOldResume = godebug.New(\"#verifsimoldresume\")\n"
+			dst := filepath.Join(*out, "crypto_tls_common.go")
+			must(os.WriteFile(dst, []byte(nb), 0o644))
+			replace[cp] = dst
+			fmt.Println("simgen: crypto/tls resumption check made switchable")
+		} else {
+			fmt.Println("simgen: WARNING crypto/tls anchor not found")
+		}
+	}
 	if *quicOut != "" {
 		must(patchQuicGo(*repo, *quicOut))
 		must(patchOtter(*repo, filepath.Join(filepath.Dir(*quicOut), "otter")))
